@@ -909,9 +909,7 @@ def gen_decl_random(rng):
                 # an attribute shadowed by a different property (declaration not judged)
                 lv2 = rng.choice([x for x in range(depth) if x != lv])
                 q = rng.choice(f['props'])
-                # (str(float) is not modelled: keep float-holding and str-cast properties off one attribute)
-                if not ({p[1], q[1]} & set('og') and {p[1], q[1]} & {'d', 'v'}):
-                    classes[lv2]['descs'].append([a, q[0], f['name']])
+                classes[lv2]['descs'].append([a, q[0], f['name']])
     if rng.random() < 0.03:
         classes[rng.randrange(depth)]['descs'].append(['px', 'nowhere', None if rng.random() < 0.5 else names[0]])
     if rng.random() < 0.02:
@@ -988,6 +986,15 @@ def gen_ops(rng, classes, nobj, nops, wrong=0.2):
         if q is not None:
             info.append((a, i2, p, q))
     ifnames = sorted(set(f['name'] for c in classes for f in c['ifaces']))
+    # str(float) is not modelled: when one attribute name serves a float-holding and a str-cast property
+    # (an attribute shadowed by another property), the case gets no float values at all
+    asigs = {}
+    for a, i, p, q in info:
+        asigs.setdefault(a, set()).add(q[1])
+    nofloat = any(v & set('og') and v & {'d', 'v'} for v in asigs.values())
+
+    def keep(v):
+        return not (nofloat and v[0] == 'D')
     ops = []
     exported = set()
     # initial assignments
@@ -995,7 +1002,9 @@ def gen_ops(rng, classes, nobj, nops, wrong=0.2):
         full = rng.random() < 0.7
         for a, i, p, q in info:
             if full or rng.random() < 0.5:
-                ops.append(['assign', o, a, good_value(rng, q[1])])
+                v = good_value(rng, q[1])
+                if keep(v):
+                    ops.append(['assign', o, a, v])
         if rng.random() < 0.9 or o == 0:
             ops.append(['export', o])
             exported.add(o)
@@ -1028,11 +1037,12 @@ def gen_ops(rng, classes, nobj, nops, wrong=0.2):
         if r < 0.3:
             if rng.random() < 0.1:
                 v = from_py(rng.choice(JUNK_LOCAL))
-                if v[0] == 'D' and q[1] in 'og':
+                if v[0] == 'D' and (q[1] in 'og' or asigs.get(a, set()) & set('og')):
                     v = ['N']             # str(float) is not modelled
             else:
                 v = good_value(rng, q[1])
-            ops.append(['assign', o, a, v])
+            if keep(v):
+                ops.append(['assign', o, a, v])
         elif r < 0.55:
             ops.append(['get', o, i, p])
         elif r < 0.8:
@@ -1042,7 +1052,7 @@ def gen_ops(rng, classes, nobj, nops, wrong=0.2):
             else:
                 v = good_value(rng, q[1])
                 wt = wire_type_for(rng, v, prefer=q[1] if rng.random() < 0.85 else None)
-            if wt is None:
+            if wt is None or not keep(v):
                 continue
             ops.append(['set', o, i, p, v, wt])
         else:
